@@ -7,9 +7,13 @@ import json
 import os
 import re
 import subprocess
+import sys
 import time
 
 from . import common, grammar_cfgs
+
+# the deep cells (spec/MC_PenneGrammarCells.tla) nest 270 (thorough: 1100) levels: JSON decoding and the tree walks below recurse
+sys.setrecursionlimit(max(sys.getrecursionlimit(), 60000))
 from .common import log
 
 EXE = "pvh_grammar"
@@ -21,9 +25,14 @@ FOCI = ["decls", "loose", "types", "flat", "nest", "exprs", "ops", "lists", "com
 # tests/samples/valid/view_aliasing.pn is written that way.)
 UNCONSTRAINED = {"undoc"}
 PRODUCTIONS = grammar_cfgs.ALL
+CELLS = "cells"                     # pseudo-focus: the cell generator spec/MC_PenneGrammarCells.tla (dimension audit)
+CELL_FAMILIES = ["wide", "deep", "deepif", "bound", "pos", "type", "stmt", "name", "order", "decl", "indent", "strlen"]
 # The delta lexer allocates its token buffers (>= 2 MB) per call; glibc serves such sizes by mmap/munmap, which serialises
 # the worker threads in the kernel.  Keeping them on the heap makes the replay 4x faster (measured); no effect on results.
-PVH_ENV = {"MALLOC_MMAP_THRESHOLD_": "33554432", "MALLOC_TRIM_THRESHOLD_": "2000000000", "MALLOC_TOP_PAD_": "268435456"}
+PVH_ENV = {"MALLOC_MMAP_THRESHOLD_": "33554432", "MALLOC_TRIM_THRESHOLD_": "2000000000", "MALLOC_TOP_PAD_": "268435456",
+           # the worker threads of the harness parse / project / rebuild nests of depth 270 .. 1100 (debug build: ~10 KB per level);
+           # the stack is reserved, not committed
+           "RUST_MIN_STACK": str(1 << 30)}
 JAVA_CP = "/opt/veriftools/tla/tla2tools.jar:/opt/veriftools/tla/CommunityModules-deps.jar"
 
 
@@ -147,6 +156,8 @@ def _brief(v):
         return "{%s}" % v.get("k", "..")
     if isinstance(v, list):
         return "[%d]" % len(v)
+    if isinstance(v, str) and len(v) > 64:
+        return json.dumps(v[:24] + "...(%d characters)" % len(v))
     return json.dumps(v)
 
 
@@ -178,6 +189,21 @@ def diff_signature(expected, observed):
     return "%s in %s: expected %s observed %s" % (generic, _context(expected, path), _brief(e), _brief(o))
 
 
+def tree_diff_key(expected, observed):
+    """diff_signature, except that differences with a known numeric shape get ONE key whatever position they occur in"""
+    d = first_diff(expected, observed)
+    if d is not None:
+        path, e, o = d
+        if path.endswith(".n") and isinstance(e, str) and isinstance(o, str) and e.isdigit() and o.isdigit() \
+                and int(e) >= 1 << 64 and int(o) == int(e) % (1 << 64):
+            return "array length of 2^64 or more: the tree has the length modulo 2^64"
+        if path.endswith(".n") and isinstance(e, str) and isinstance(o, str) and e.isdigit() and o.isdigit():
+            return "array length: expected %s observed %s" % (e, o)           # whatever position the type stands in
+        if isinstance(e, str) and isinstance(o, str) and len(e) > 64:
+            return "name of %d characters: observed %d characters" % (len(e), len(o))   # whatever role the name plays
+    return diff_signature(expected, observed)
+
+
 def rejection_shape(text):
     """names the construct when a rejected valid module has a known shape, so that one defect gives one key"""
     if re.search(r"\b(struct|word\d+) \w+ \{ [^}]*[^,{ ] \}", text):
@@ -185,11 +211,99 @@ def rejection_shape(text):
     return None
 
 
+def cell_label(case):
+    """`cell wide/callargs/130`: the input class of a case of the cell generator"""
+    c = case.get("cell")
+    if not c:
+        return None
+    if c.get("fam") == "name":
+        # the name, not the role it plays (one defect of the lexer shows in every role)
+        return "cell name/%s" % str(c.get("what")).split(": ", 1)[-1]
+    if c.get("fam") in ("pos", "type", "stmt", "decl", "order", "indent"):
+        return "cell %s/%s" % (c.get("fam"), c.get("what"))
+    return "cell %s/%s/%s" % (c.get("fam"), c.get("what"), c.get("n"))
+
+
+def shape_key(case):
+    """names the input class of a case for a finding key: the cell, a known rejection shape, or the (shortened) text"""
+    label = cell_label(case)
+    if label:
+        return label
+    text = canon(case)
+    return rejection_shape(text) or (text if len(text) <= 300 else text[:300] + " ... (%d tokens)" % len(case["toks"]))
+
+
 def panic_signature(msg):
     msg = msg or "?"
     text, _, loc = msg.partition(" @ ")
     loc = re.sub(r"^.*?/src/", "src/", loc)
     return (text.strip()[:80] + " @ " + loc).strip()
+
+
+# ---------------------------------------------------------------------------------------------
+# running the harness over a case file: a death of the process is an observation of ONE case
+# ---------------------------------------------------------------------------------------------
+def _died(rc):
+    return rc < 0 or rc in (132, 134, 135, 136, 139)       # killed by a signal (directly or as reported by a shell)
+
+
+def crash_observation(cmd, case_id, rc, layouts=1):
+    what = "the process died (exit status %s: abort / stack overflow / segmentation fault) while this module was parsed" % rc
+    if cmd == "replay":
+        one = {"o": "panic", "stage": "process", "panic": what + " @ process"}
+        return {"id": case_id, "d": [one] + ["="] * (layouts - 1), "a": [dict(one)] + ["="] * (layouts - 1), "crash": rc}
+    return {"id": case_id, "o": "panic", "stage": "process", "panic": what + " @ process", "crash": rc}
+
+
+def pvh_cases(cmd, cases_path, out_path, extra, layouts=1, env=None):
+    """`pvh_grammar <cmd> CASES OUT extra...` (replay / roundtrip / record).  The parsers run inside the harness process: if
+    it dies (stack overflow, abort, segmentation fault -- nothing catch_unwind can stop), the case file is bisected in child
+    processes down to the modules that kill it; those get a crash observation (reported as a panic of that module), all
+    others their ordinary observation.  Returns the list of case ids that killed the process."""
+    env = dict(PVH_ENV, **(env or {}))
+    p = common.pvh([cmd, cases_path, out_path] + list(extra), exe_name=EXE, env=env, check=False)
+    if p.returncode == 0:
+        return []
+    if not _died(p.returncode):
+        log(p.stdout[-2000:] + p.stderr[-2000:])
+        raise common.ToolError("pvh_grammar %s exited with %d" % (cmd, p.returncode))
+    log("[harness] pvh_grammar %s died with status %d: isolating the modules that kill it" % (cmd, p.returncode))
+    with open(cases_path) as f:
+        lines = f.readlines()
+    tmp_in = out_path + ".part-in"
+    tmp_out = out_path + ".part-out"
+    parts = {}                          # lo -> list of output lines
+    killers = []
+    work = [(0, len(lines))]
+    runs = 0
+    while work:
+        lo, hi = work.pop()
+        runs += 1
+        if runs > 400:
+            raise common.ToolError("pvh_grammar %s keeps dying (more than 400 child runs)" % cmd)
+        with open(tmp_in, "w") as f:
+            f.writelines(lines[lo:hi])
+        q = common.pvh([cmd, tmp_in, tmp_out] + list(extra), exe_name=EXE, env=env, check=False)
+        if q.returncode == 0:
+            with open(tmp_out) as f:
+                parts[lo] = f.readlines()
+        elif not _died(q.returncode):
+            raise common.ToolError("pvh_grammar %s exited with %d on a part of the cases" % (cmd, q.returncode))
+        elif hi - lo == 1:
+            cid = json.loads(lines[lo])["id"] if '"tree"' not in lines[lo] else int(re.match(r'\{"id":(\d+)', lines[lo]).group(1))
+            killers.append(cid)
+            parts[lo] = [json.dumps(crash_observation(cmd, cid, q.returncode, layouts)) + "\n"]
+        else:
+            mid = (lo + hi) // 2
+            work += [(mid, hi), (lo, mid)]
+    with open(out_path, "w") as f:
+        for lo in sorted(parts):
+            f.writelines(parts[lo])
+    for t in (tmp_in, tmp_out):
+        if os.path.exists(t):
+            os.remove(t)
+    log("[harness] %d module(s) kill the harness process: case ids %s" % (len(killers), killers[:10]))
+    return killers
 
 
 # ---------------------------------------------------------------------------------------------
@@ -219,13 +333,19 @@ def parse_coverage(path):
 def run_tlc_focus(focus, tier, workers, timeout):
     """One TLC run (with -coverage 1).  The CASE lines stay in the output file; they are streamed by derive()."""
     cfg = "MC_PenneGrammar_%s_%s.cfg" % (focus, tier)
+    module = "MC_PenneGrammar.tla"
+    if focus == CELLS:
+        cfg, module = "MC_PenneGrammarCells_%s.cfg" % tier, "MC_PenneGrammarCells.tla"
     tag = "grammar-%s-%s" % (focus, tier)
     out_path = os.path.join(common.WORK, tag + ".out")
     metadir = os.path.join(common.WORK, "md-" + tag)
     subprocess.run(["rm", "-rf", metadir])
     cmd = ["timeout", str(timeout), "java", "-Xss1g", "-Xmx6g", "-XX:+UseParallelGC", "-cp", JAVA_CP, "tlc2.TLC",
            "-workers", str(workers), "-metadir", metadir, "-cleanup", "-noGenerateSpecTE", "-coverage", "1",
-           "-config", os.path.join(common.SPEC, cfg), os.path.join(common.SPEC, "MC_PenneGrammar.tla")]
+           "-config", os.path.join(common.SPEC, cfg), os.path.join(common.SPEC, module)]
+    if focus == CELLS:
+        cmd.remove("-coverage")      # no productions are applied there; the vacuity guard of the cells is the family count
+        cmd.remove("1")
     t0 = time.time()
     with open(out_path, "w") as out:
         p = subprocess.run(cmd, stdout=out, stderr=subprocess.STDOUT, cwd=common.SPEC)
@@ -291,19 +411,20 @@ def derive(tier, workers=4, parallel=3, use_cache=True):
     t0 = time.time()
     timeout = {"quick": 600, "thorough": 3000}[tier]
     with concurrent.futures.ThreadPoolExecutor(max_workers=parallel) as ex:
-        results = {r["focus"]: r for r in ex.map(lambda f: run_tlc_focus(f, tier, workers, timeout), FOCI)}
+        results = {r["focus"]: r for r in ex.map(lambda f: run_tlc_focus(f, tier, workers, timeout), FOCI + [CELLS])}
     cases_path = os.path.join(common.WORK, "grammar-cases-%s.ndjson" % tier)
     per_focus = {}
     coverage = {}
     states = transitions = count = 0
     with open(cases_path, "w") as out:
-        for focus in FOCI:
+        for focus in FOCI + [CELLS]:
             r = results[focus]
             if not r["ok"]:
-                # TreeOK / ToksAgree violated: the generator disagrees with its own unparser -- a defect of the specification
+                # TreeOK / ToksAgree / CellsOK violated: the generator disagrees with its own unparser -- a defect of the specification
                 log(r["tail"][-2000:])
                 raise common.ToolError("invariant %s of PenneGrammar violated in focus %s: the specification is inconsistent" % (r["violated"], focus))
             n = 0
+            families = {}
             with open(r["output"], errors="replace") as f:
                 for line in f:
                     if not line.startswith('<<"CASE"'):
@@ -312,13 +433,21 @@ def derive(tier, workers=4, parallel=3, use_cache=True):
                     if not d or not isinstance(d[1], dict):
                         raise common.ToolError("unreadable CASE line in %s" % r["output"])
                     c = d[1]
-                    out.write(json.dumps({"id": count, "focus": focus, "toks": c["toks"], "tree": expected_tree(c["tree"]), "n": c["n"]},
-                                         separators=(",", ":")))
+                    case = {"id": count, "focus": focus, "toks": c["toks"], "tree": expected_tree(c["tree"]), "n": c["n"]}
+                    if "cell" in c:
+                        case["cell"] = c["cell"]
+                        families[c["cell"]["fam"]] = families.get(c["cell"]["fam"], 0) + 1
+                    out.write(json.dumps(case, separators=(",", ":")))
                     out.write("\n")
                     count += 1
                     n += 1
             os.remove(r["output"])
             per_focus[focus] = {"states": r["states"], "transitions": r["transitions"], "cases": n, "wall": round(r["wall"], 1)}
+            if focus == CELLS:
+                per_focus[focus]["families"] = families
+                empty = [f for f in CELL_FAMILIES if not families.get(f)]
+                if empty:
+                    raise common.ToolError("vacuity: the cell generator emitted no cell of the families %s" % empty)
             states += r["states"]
             transitions += r["transitions"]
             for k, v in r["coverage"].items():
